@@ -261,6 +261,18 @@ def run(cs, tier, run_index):
         res.probe("unequal_alphabets")
 
     ops = draw_ops(cs.s("ops"), shape, tier)
+    if cfg.draw(4) == 3:
+        # an object of the same shape that is used and dropped before the history starts
+        import gc
+
+        tmp = make_subject(M, RunResult(), kind, cs.s("game:e"), like=subs[0].meta)
+        if tmp is not None:
+            first = ops[0]
+            with with_entropy(first.get("entropy", 0) + 5):
+                call_value(apply(tmp.game, first), res, first["op"] + "(ephemeral object)")
+            del tmp
+            gc.collect()
+            res.probe("ephemeral_object_before_history")
     ws = cs.s("ops:which")
     methods_seen = []
     for k, op in enumerate(ops):
